@@ -1124,9 +1124,32 @@ class Interp:
             return Opaque(nm)
         if nm in ('isnan', 'isinf', 'isfinite') and args and concrete(args[0]) is not None:
             return nm == 'isfinite'
+        if nm in ('spherical_jn', 'spherical_yn') and args and isinstance(concrete(args[0]), int) and len(args) >= 2 and is_num(args[1]):
+            dflag = kwargs.get('derivative', args[2] if len(args) > 2 else False)
+            if dflag in (True, False, 0, 1):
+                return sph_bessel(nm, int(concrete(args[0])), to_node(args[1]), bool(dflag))
         if nm in ('spherical_jn', 'spherical_yn', 'jv', 'yv', 'erf', 'erfc', 'lgamma') and all(is_num(a) for a in args):
             return X.fn(nm, *[to_node(a) for a in args])        # uninterpreted special function
         raise AnalysisError(f'{fr.mod.where(e)}: unmodelled builtin `{name}`')
+
+
+def sph_bessel(name, n, x, derivative=False):
+    """spherical Bessel function of concrete integer order, written canonically over the two uninterpreted base functions f_0(x), f_1(x) through the three-term
+    recurrence f_(k+1) = (2k+1)/x f_k - f_(k-1); the derivative through f_n' = (n/x) f_n - f_(n+1).  Expressions that are equal by the recurrences therefore have
+    equal values in the identity test."""
+    if n < 0 or n > 60:
+        raise AnalysisError(f'{name} of order {n}')
+    f0 = X.fn(name, X.const(0), x); f1 = X.fn(name, X.const(1), x)
+
+    def order(k):
+        a, b = f0, f1
+        if k == 0: return a
+        for j in range(1, k):
+            a, b = b, (2 * j + 1) / x * b - a
+        return b
+    if derivative:
+        return (n / x) * order(n) - order(n + 1) if n > 0 else -order(1)
+    return order(n)
 
 
 def _deepcopy(v):
